@@ -25,8 +25,9 @@ use vh::*;
 use write_fonts::read::types::Tag;
 use write_fonts::read::FontRef;
 
-const FONTC: &str = "/verif/work/repo-target/debug/fontc";
-const TARGET_DIR: &str = "/verif/work/repo-target";
+static REPO: std::sync::LazyLock<String> = std::sync::LazyLock::new(|| vh::repo_root().to_string_lossy().into_owned());
+static TARGET_DIR: std::sync::LazyLock<String> = std::sync::LazyLock::new(|| vh::repo_target(&vh::repo_root()).to_string_lossy().into_owned());
+static FONTC: std::sync::LazyLock<String> = std::sync::LazyLock::new(|| format!("{}/debug/fontc", &*TARGET_DIR));
 /// CPU seconds per compile (a normal compile of these sources needs well under 1 s of CPU).
 const SH_WRAPPER: &str = r#"ulimit -c 0; ulimit -v 4000000; ulimit -t "$C15_CPU"; exec timeout -s KILL 300 "$0" "$@""#;
 const CPU_LIMIT: u32 = 6;
@@ -146,7 +147,7 @@ fn run_fontc_limit(src: &Path, extra: &[String], out: &Path, cpu_secs: u32) -> R
     let scratch = out.parent().expect("out path has a parent").to_path_buf();
     let t0 = Instant::now();
     let mut cmd = Command::new("sh");
-    cmd.arg("-c").arg(SH_WRAPPER).arg(FONTC).arg(src).arg("-o").arg(out).arg("--build-dir").arg(scratch.join("build"));
+    cmd.arg("-c").arg(SH_WRAPPER).arg(&*FONTC).arg(src).arg("-o").arg(out).arg("--build-dir").arg(scratch.join("build"));
     cmd.args(extra);
     // 16 concurrent compiles x 16 rayon workers each spend most of their time in sched_yield on a shared
     // machine; 4 workers per compile (what a 4-core machine gets by default) unless the caller says otherwise
@@ -397,6 +398,105 @@ fn graph_design(store: &[G]) -> Design {
     d.masters[0].glyph_order = Some((0..store.len()).map(gname).collect());
     d.masters[0].skip_export = (0..store.len()).filter(|&i| !store[i].export).map(gname).collect();
     d
+}
+
+/// A component graph that differs between masters (seed C15-1): stores[0] is the default master, the others
+/// are further masters on one axis.  The cycle check must look at every master.
+#[derive(Clone, Debug)]
+struct MCycleCase {
+    stores: Vec<Vec<G>>,
+    flags: FlagV,
+    label: String,
+}
+
+fn mcycle_design(stores: &[Vec<G>]) -> Design {
+    let mut d = graph_design(&stores[0]);
+    d.family = "C15MGraph".into();
+    d.axes.push(AxisSrc { name: "Weight".into(), tag: "wght".into(), min: 400.0, default: 400.0, max: 900.0, ..Default::default() });
+    d.masters[0].location = vec![("Weight".into(), 400.0)];
+    for (k, st) in stores[1..].iter().enumerate() {
+        let mut m = graph_design(st).masters[0].clone();
+        m.name = format!("M{}", k + 1);
+        m.style = format!("M{}", k + 1);
+        m.location = vec![("Weight".into(), 900.0 - 150.0 * k as f64)];
+        d.masters.push(m);
+    }
+    d
+}
+
+/// union over the masters: what a cycle check has to look at
+fn union_store(stores: &[Vec<G>]) -> Vec<G> {
+    let mut u = stores[0].clone();
+    for st in &stores[1..] {
+        for (i, gl) in st.iter().enumerate() {
+            for c in &gl.comps {
+                if !u[i].comps.contains(c) {
+                    u[i].comps.push(c.clone());
+                }
+            }
+        }
+    }
+    u
+}
+
+fn mcycle_corpus() -> Vec<MCycleCase> {
+    let nd = || g(&[], 1, true);
+    let mut v = Vec::new();
+    let mut add = |label: &str, stores: Vec<Vec<G>>, flags: FlagV| v.push(MCycleCase { stores, flags, label: label.into() });
+    // default: a simple, b -> a; other master: a -> b, b -> a
+    let dflt = vec![nd(), g(&[], 1, true), g(&[(1, 0, 0)], 0, true)];
+    let bold = vec![nd(), g(&[(2, 0, 0)], 0, true), g(&[(1, 0, 0)], 0, true)];
+    add("cycle-only-in-second-master", vec![dflt.clone(), bold.clone()], FlagV::Default);
+    add("cycle-only-in-second-master-flatten", vec![dflt.clone(), bold.clone()], FlagV::Flatten);
+    add("cycle-only-in-second-master-decompose", vec![dflt.clone(), bold.clone()], FlagV::Decompose);
+    add("cycle-only-in-third-master", vec![dflt.clone(), dflt.clone(), bold.clone()], FlagV::Default);
+    // self reference only in the second master
+    add("self-reference-only-in-second-master", vec![dflt.clone(), vec![nd(), g(&[(1, 5, 0)], 0, true), g(&[(1, 0, 0)], 0, true)]], FlagV::Default);
+    // cycle closed by edges from two different masters: a -> b in master 2, b -> a in the default
+    add("cycle-across-masters", vec![vec![nd(), g(&[], 1, true), g(&[(1, 0, 0)], 0, true)], vec![nd(), g(&[(2, 0, 0)], 0, true), g(&[], 1, true)]], FlagV::Default);
+    // the same composites in every master (no cycle): must compile
+    add("consistent-composites", vec![dflt.clone(), dflt.clone()], FlagV::Default);
+    v
+}
+
+fn gen_mcycle(rng: &mut Rng) -> MCycleCase {
+    let n = rng.range(3, 6) as usize;
+    let nmasters = rng.range(2, 3) as usize;
+    // default master: acyclic (components point to lower ids only)
+    let mut dflt = vec![g(&[], 1, true)];
+    for i in 1..n {
+        if i == 1 || rng.chance(1, 2) {
+            dflt.push(g(&[], 1, true));
+        } else {
+            let b = rng.range(1, i as i64 - 1) as usize;
+            dflt.push(g(&[(b, rng.range(-2, 2) * 10, 0)], 0, true));
+        }
+    }
+    let mut stores = vec![dflt.clone()];
+    for _ in 1..nmasters {
+        let mut st = dflt.clone();
+        // redirect or add a few components, possibly upwards (closing a cycle) or to itself
+        for _ in 0..rng.range(1, 2) {
+            let i = rng.range(1, n as i64 - 1) as usize;
+            let b = rng.range(1, n as i64 - 1) as usize;
+            st[i] = g(&[(b, rng.range(-2, 2) * 10, 0)], 0, true);
+        }
+        stores.push(st);
+    }
+    let flags = match rng.below(5) {
+        0 => FlagV::Flatten,
+        1 => FlagV::Decompose,
+        2 => FlagV::NoPreferSimple,
+        _ => FlagV::Default,
+    };
+    let cyc = has_cycle(&union_store(&stores));
+    MCycleCase { stores, flags, label: format!("gen-{}", if cyc { "cyclic" } else { "acyclic" }) }
+}
+
+fn run_mcycle(c: &MCycleCase) -> Run {
+    let tmp = scratch_dir("c15mg");
+    let src = mcycle_design(&c.stores).write(&tmp.path().join("src"));
+    run_fontc(&src, &c.flags.cli(), &tmp.path().join("out.ttf"))
 }
 
 fn coq_glyph(gl: &G) -> String {
@@ -816,7 +916,7 @@ fn generated_base(kind: &'static str, d: &Design) -> Base {
 }
 
 fn real_base(kind: &'static str, rel: &str) -> Option<Base> {
-    let src = Path::new("/repo/resources/testdata").join(rel);
+    let src = Path::new(&*REPO).join("resources/testdata").join(rel);
     if !src.exists() {
         return None;
     }
@@ -1230,6 +1330,7 @@ enum Case {
     Mal(MalCase),
     Deep(DeepCase),
     GCycle(GCycleCase),
+    MCycle(MCycleCase),
 }
 
 /// acyclic chain g00000 (simple), g_i = one identity component of g_{i-1}
@@ -1303,7 +1404,7 @@ fn glyphs_cycle_corpus(clean: &BTreeMap<String, bool>) -> (Vec<GCycleCase>, Vec<
             skipped.push(format!("{label}: base {base} missing or does not compile cleanly"));
             continue;
         }
-        let path = Path::new("/repo/resources/testdata").join(base);
+        let path = Path::new(&*REPO).join("resources/testdata").join(base);
         let Ok(mut text) = std::fs::read_to_string(&path) else {
             skipped.push(format!("{label}: cannot read {base}"));
             continue;
@@ -1378,7 +1479,7 @@ fn main() {
 
     // ---- 0. rebuild the CLI from /repo's working tree
     let build = Command::new("timeout")
-        .args(["3000", "cargo", "build", "--offline", "--manifest-path", "/repo/Cargo.toml", "-p", "fontc", "--target-dir", TARGET_DIR])
+        .args(["3000", "cargo", "build", "--offline", "--manifest-path", &format!("{}/Cargo.toml", &*REPO), "-p", "fontc", "--target-dir", &*TARGET_DIR])
         .env("CARGO_NET_OFFLINE", "true")
         .env_remove("RUSTFLAGS")
         .env_remove("CARGO_ENCODED_RUSTFLAGS")
@@ -1388,7 +1489,7 @@ fn main() {
         .stdout(Stdio::null())
         .stderr(Stdio::piped())
         .output();
-    let build_ok = matches!(&build, Ok(o) if o.status.success()) && Path::new(FONTC).exists();
+    let build_ok = matches!(&build, Ok(o) if o.status.success()) && Path::new(&*FONTC).exists();
     if !build_ok {
         let log = match &build {
             Ok(o) => String::from_utf8_lossy(&o.stderr).into_owned(),
@@ -1477,6 +1578,7 @@ fn main() {
     }
     let (gcycles, gcycle_skipped) = glyphs_cycle_corpus(&clean_map);
     cases.extend(gcycles.into_iter().map(Case::GCycle));
+    cases.extend(mcycle_corpus().into_iter().map(Case::MCycle));
     if generated_ok {
         cases.extend(fea_include_corpus(&bases[0]).into_iter().map(Case::Mal));
         cases.extend(crash_corpus(&bases).into_iter().map(Case::Mal));
@@ -1486,7 +1588,9 @@ fn main() {
     let (mut hang_kept, mut hang_replaced) = (0usize, 0usize);
     for _ in 0..n {
         let r = rng.below(100);
-        if r < 55 {
+        if r < 6 {
+            cases.push(Case::MCycle(gen_mcycle(&mut rng)));
+        } else if r < 55 {
             loop {
                 let c = gen_graph(&mut rng);
                 if hang_prone(&c.store, c.flags) {
@@ -1514,6 +1618,7 @@ fn main() {
         match c {
             Case::Graph(gc) if hang_prone(&gc.store, gc.flags) => 6,
             Case::GCycle(_) => 6,
+            Case::MCycle(_) => 6,
             Case::Deep(dc) if dc.len > 1000 => 4,
             Case::Graph(gc) if has_cycle(&gc.store) => 1,
             _ => 0,
@@ -1526,6 +1631,7 @@ fn main() {
         Case::Mal(mc) => Res::Cli(run_base(&bases[mc.base], &mc.ov)),
         Case::Deep(dc) => Res::Cli(run_deep(dc)),
         Case::GCycle(gc) => Res::Cli(run_gcycle(gc)),
+        Case::MCycle(mc) => Res::Cli(run_mcycle(mc)),
     });
     let mut slots: Vec<Option<Res>> = cases.iter().map(|_| None).collect();
     for (i, r) in order.iter().zip(by_order) {
@@ -1809,6 +1915,49 @@ fn main() {
                         v.push((format!("uncaught-panic:{site}"), format!("{what}: uncaught panic on the main thread at {site} (exit 101)")));
                     }
                     Class::Bogus => v.push(("bogus-font".into(), format!("{what}: exit 0 but the output file is missing, empty or not a usable font"))),
+                    Class::OkFont | Class::Error => {}
+                }
+                if r.font_exists && !matches!(r.class, Class::OkFont | Class::Bogus) {
+                    v.push(("font-on-failure".into(), format!("{what}: a font file exists although the run ended with {}", r.class.name())));
+                }
+                for (k, d) in v {
+                    emit_violation(&k, d, vjson());
+                    nviol += 1;
+                }
+            }
+            (Case::MCycle(mc), Res::Cli(r)) => {
+                max_wall = max_wall.max(r.wall_ms);
+                total_wall += r.wall_ms;
+                *wall_per_class.entry(r.class.name().to_string()).or_default() += r.wall_ms;
+                let cyc = has_cycle(&union_store(&mc.stores));
+                if cyc {
+                    cyclic += 1;
+                }
+                bump(&mut classes, "master-graph", r.class.name());
+                let masters: Vec<Value> = mc.stores.iter().map(|st| store_json(st)).collect();
+                emit(json!({"type": "case", "id": id, "kind": if cyc { "master-graph-cycle" } else { "master-graph-acyclic" }, "nontrivial": true,
+                            "sig": format!("M|{:?}|{}", mc.stores, mc.flags.name()), "label": mc.label, "flags": mc.flags.name(),
+                            "class": r.class.name(), "exit_code": r.exit_code, "signal": r.signal, "cycle_error": r.cycle_msg,
+                            "cycle_in_union_of_masters": cyc, "font_exists": r.font_exists, "font_ok": r.font_ok}));
+                let vjson = || {
+                    json!({"masters": masters, "flags": mc.flags.name(), "cli_flags": mc.flags.cli(), "label": mc.label, "case_id": id,
+                           "class": r.class.name(), "exit_code": r.exit_code, "signal": r.signal, "cycle_in_union_of_masters": cyc,
+                           "stderr": r.stderr_tail, "font_exists": r.font_exists, "mode": if fixed { "fixed" } else { "unfixed" }})
+                };
+                let what = format!("designspace whose masters have different component graphs [{}] flags [{}]", mc.label, mc.flags.name());
+                let mut v: Vec<(String, String)> = Vec::new();
+                match r.class {
+                    Class::Signal => {
+                        let k = if r.stack_overflow { "master-local-cycle-stack-overflow" } else { "master-local-cycle-abort" };
+                        v.push((k.into(), format!("{what}: fontc killed by signal {:?} (exit {:?}){}", r.signal, r.exit_code, if r.stack_overflow { ", stack overflow" } else { "" })));
+                    }
+                    Class::Timeout => v.push(("master-local-cycle-hang".into(), format!("{what}: fontc did not terminate within 6 CPU-seconds / 300 s wall (signal {:?}, exit {:?})", r.signal, r.exit_code))),
+                    Class::Panic101 => {
+                        let site = r.panic_site.clone().unwrap_or_else(|| "unknown".into());
+                        v.push((format!("uncaught-panic:{site}"), format!("{what}: uncaught panic on the main thread at {site} (exit 101)")));
+                    }
+                    Class::Bogus => v.push(("bogus-font".into(), format!("{what}: exit 0 but the output file is missing, empty or not a usable font"))),
+                    Class::OkFont if cyc && fixed => v.push(("master-local-cycle-not-reported".into(), format!("{what}: the union of the masters' component graphs has a cycle but a font was produced"))),
                     Class::OkFont | Class::Error => {}
                 }
                 if r.font_exists && !matches!(r.class, Class::OkFont | Class::Bogus) {
